@@ -44,7 +44,9 @@ CONSTANTS NV,        \* variables are 1..NV (1 = "x" < 2 = "y" < 3 = "z": min() 
           QVars,     \* sequence: QVars[q] = variables of query expression q
           QVal,      \* sequence: QVal[q] = sequence over assignment indices (1-based) of the expression's value
           NA,        \* assignments are 1..NA
-          MaxDepth
+          MaxDepth,
+          Variant    \* "code": the model of the code.  "nomerge": negative control -- Add puts the constraint into ONE
+                     \* of the children it touches instead of merging them (TLC must refute Coverage / AnswerStep)
 
 VARIABLES kids, flag, added, hist, ret
 vars == <<kids, flag, added, hist, ret>>
@@ -97,7 +99,8 @@ Add(c) ==
   /\ IF CVars[c] = {}
        THEN /\ flag' = (flag \/ CDen[c] = {})
             /\ kids' = kids
-       ELSE LET T == Closure(kids, CVars[c])
+       ELSE LET T0 == Closure(kids, CVars[c])
+                T == IF Variant = "nomerge" /\ T0 # {} THEN {CHOOSE k \in T0 : TRUE} ELSE T0
                 m == [cs |-> UNION {k.cs : k \in T} \cup {c}, reg |-> {}, chk |-> FALSE]
             IN /\ kids' = Store(kids \ T, m)
                /\ flag' = flag
